@@ -562,6 +562,10 @@ def run_c19(args: dict) -> dict:
     out["abstract"] = [list(REPLICAS[i]) for i in order] + [["jumps", clock.jumps]]
     out["log_digest"] = hashlib.sha256(json.dumps([out.get("signature"), stats, sorted((k[0] + k[1], hashlib.sha256((op_text(v) or "").encode()).hexdigest())
                                                                                         for k, v in obs.items())], sort_keys=True).encode()).hexdigest()
+    # the same, insensitive to what the property allows to vary with the interpreter's hash seed
+    out["log_digest_normalised"] = hashlib.sha256(json.dumps([out.get("signature"), stats, sorted(
+        (k[0] + k[1], hashlib.sha256(json.dumps(normalise_text(op_text(v) or ""), sort_keys=True).encode()).hexdigest()) for k, v in obs.items())],
+        sort_keys=True).encode()).hexdigest()
     return out
 
 
